@@ -197,9 +197,12 @@ def run_concurrent(case):
     rnd = random.Random(case["seed"])
     quota = rnd.choice([1500, 3000, 6000, None])
     with common.scratch("c15") as base:
-        shape = rnd.choice(["missing", "empty", "stray", "missing"])
+        shape = rnd.choice(["missing", "empty", "stray", "missing", "behind-symlink", "behind-symlink"])
         store = os.path.join(base, "store")
-        if shape != "missing":
+        if shape == "behind-symlink":
+            # the configured spelling of the store path contains a symlink component (symlinked $HOME, /var/cache -> /data/cache ...)
+            os.makedirs(os.path.join(base, "real-store")); os.symlink("real-store", store)
+        elif shape != "missing":
             os.makedirs(store)
         if shape == "stray":
             os.makedirs(os.path.join(store, "tmpabc123"))
@@ -338,6 +341,8 @@ def run_sequential(case):
                     viol.append(violation("operation-fails-on-empty-store", {"store": shape, "op": name, "error": "%s: %s" % (type(ex).__name__, str(ex)[:150])}))
         # quota rule
         store = os.path.join(base, "store")
+        if rnd.random() < 0.5:
+            os.makedirs(os.path.join(base, "real-store")); os.symlink("real-store", store)
         npk = rnd.randrange(4, 9)
         sizes = {}
         sh = _share(store, None)
